@@ -280,6 +280,19 @@ def body(ctx):
     lean = ctx.lean
     reqs, checks = [], []   # checks: (kind, impl, case)
 
+    class Raised(Exception):
+        pass
+
+    def real(entry, case, f, *a, **k):
+        """call the real code on an input inside the property's quantifier: an exception is a finding, not a crash"""
+        try:
+            return f(*a, **k)
+        except Exception as e:  # noqa
+            jc = {kk: (vv.tolist() if isinstance(vv, np.ndarray) else vv) for kk, vv in case.items()} if isinstance(case, dict) else case
+            ctx.finding(f"{entry}/raises", f"{entry} raises on an input inside the property's quantifier",
+                        {**jc, "error": f"{type(e).__name__}: {str(e)[:150]}"})
+            raise Raised()
+
     def add(req, kind, impl, case):
         reqs.append(req)
         checks.append((kind, impl, case))
@@ -346,7 +359,10 @@ def body(ctx):
         else:
             wr = None
         # ---- dscore
-        D = float(metrics.dscore(case.get("obs_array", np.array(obs)), sim, eps=eps))
+        try:
+            D = float(real("dscore", jc, metrics.dscore, case.get("obs_array", np.array(obs)), sim, eps=eps))
+        except Raised:
+            return
         onp = np.argsort(np.argsort(np.array(obs, dtype=float)))
         ost = stable_ranks(obs)
         if not valid_ranking(obs, onp):
@@ -410,7 +426,10 @@ def body(ctx):
         s = max(1.0, float(np.max(np.abs(sim)))) / rng.choice([1.0, 3.0])
         sim2 = MAPS[name](sim, s)
         if order_iso(sim, sim2, mingap=50 * eps):
-            D2 = float(metrics.dscore(np.array(obs), sim2, eps=eps))
+            try:
+                D2 = float(real("dscore", {**jc, "map": name}, metrics.dscore, np.array(obs), sim2, eps=eps))
+            except Raised:
+                return
             if not abs(D2 - D) <= 1e-12:
                 big = "/large_magnitude" if np.max(np.abs(sim2)) >= 2.0 ** 53 else ""
                 ctx.finding("dscore/forecast_map_changes_D" + big, "D changes under a strictly increasing map of all forecast values",
@@ -420,7 +439,10 @@ def body(ctx):
         oname = rng.choice(["exp", "arctan", "cubic", "affine"])
         obs2 = MAPS[oname](np.array(obs), so)
         if order_iso(obs, obs2):
-            D3 = float(metrics.dscore(obs2, sim, eps=eps))
+            try:
+                D3 = float(real("dscore", {**jc, "obs_map": oname}, metrics.dscore, obs2, sim, eps=eps))
+            except Raised:
+                return
             if not abs(D3 - D) <= 1e-12:
                 ctx.finding("dscore/obs_map_changes_D", "D changes under a strictly increasing map of the observations",
                             {**jc, "map": oname, "scale": so, "D": D, "D_mapped": repr(D3)})
@@ -429,7 +451,10 @@ def body(ctx):
         how = rng.choice(ORDERS)
         for i in range(n):
             sp[i, :] = reorder(rng, sp[i, :], how if rng.random() < 0.7 else None)[0]
-        D4 = float(metrics.dscore(np.array(obs), sp, eps=eps))
+        try:
+            D4 = float(real("dscore", {**jc, "permuted": sp.tolist()}, metrics.dscore, np.array(obs), sp, eps=eps))
+        except Raised:
+            return
         if not abs(D4 - D) <= 1e-12:
             ctx.finding("dscore/member_permutation", "D changes when ensemble members are permuted", {**jc, "D": D, "D_permuted": repr(D4)})
 
@@ -500,7 +525,10 @@ def body(ctx):
                 ctx.finding("ensrank/ranks_not_weigel_mason/large_ensemble",
                             "ranks differ from 1 + sum_k u(F(i,k)) of Weigel and Mason (2011)",
                             {**jc, "ranks": ranks.tolist(), "definition": wr.tolist()})
-            D = float(metrics.dscore(np.array(obs), sim))
+            try:
+                D = float(real("dscore", jc, metrics.dscore, np.array(obs), sim))
+            except Raised:
+                continue
             onp = np.argsort(np.argsort(np.array(obs)))
             rdef = pearson_exact(onp, wr)
             if rdef is not None:
@@ -572,7 +600,10 @@ def body(ctx):
         if history is not None:
             case["history"] = history
         np.random.seed(seed)
-        pits_returned, sudo = metrics.pit(obs, ens, random=random_, cst=cst, censor=censor)
+        try:
+            pits_returned, sudo = real("pit", case, metrics.pit, obs, ens, random=random_, cst=cst, censor=censor)
+        except Raised:
+            return None
         pits = np.array(pits_returned, dtype=float)
         np.random.seed(seed)
         dobs = np.random.uniform(-EPS_PIT, EPS_PIT, size=n)
@@ -728,6 +759,10 @@ def body(ctx):
         except ValueError as e:
             impl = "err"
             adk = ad_kind(str(e))
+        except Exception as e:  # noqa
+            ctx.finding("ad/raises", "anderson_darling_test raises something else than ValueError",
+                        {**case, "error": f"{type(e).__name__}: {str(e)[:150]}"})
+            return
         add(f"ad {C.flist(x)}", "ad", (impl, float(adstat) if impl == "ok" else None,
                                         float(adp) if impl == "ok" and valid else None), case)
         ctx.count(("ad", xa.tobytes()), impl == "ok", f"ad/{kind}/" + ("accepted" if impl == "ok" else "rejected_" + adk))
@@ -735,6 +770,7 @@ def body(ctx):
             ctx.finding("ad/accepts_outside_unit_interval", "Anderson-Darling test accepts data outside [0, 1] or NaN", {**case})
         if impl == "err" and valid:
             ctx.finding("ad/rejects_valid", "Anderson-Darling test rejects data inside [0, 1]", {**case})
+            return
         if not valid:
             return
         # textbook AD: -n - (1/n) sum (2i-1) [ln x_(i) + ln(1 - x_(n+1-i))]
@@ -745,7 +781,10 @@ def body(ctx):
         if not (0.0 <= adp <= 1.0):
             ctx.finding("ad/pvalue_out_of_range", "AD p-value outside [0, 1]", {**case, "stat": float(adstat), "pvalue": float(adp)})
         # CvM
-        cv, cvp = metrics.cramer_von_mises_test(xa)
+        try:
+            cv, cvp = real("cvm", case, metrics.cramer_von_mises_test, xa)
+        except Raised:
+            return
         add(f"cvm {C.flist(x)}", "cvm", float(cv), case)
         # p-value: the model interpolates in the table regenerated from the archive (Generated/CvmTable.lean)
         add(f"cvmpg {n} {C.f2h(cv)}", "cvmp", float(cvp), case)
@@ -764,10 +803,13 @@ def body(ctx):
             xsh, _ = reorder(rng, x, how)
             ocase = {**case, "order": how, "reordered": [repr(v) for v in xsh] if n <= 40 else "see data"}
             ctx.hist["uniform/order=" + how] = ctx.hist.get("uniform/order=" + how, 0) + 1
-            cv2, cvp2 = metrics.cramer_von_mises_test(np.array(xsh))
+            try:
+                cv2, cvp2 = real("cvm", ocase, metrics.cramer_von_mises_test, np.array(xsh))
+            except Raised:
+                continue
             try:
                 ad2, adp2 = metrics.anderson_darling_test(np.array(xsh))
-            except ValueError as e:
+            except Exception as e:  # noqa
                 ctx.finding("ad/rejects_valid", "Anderson-Darling test rejects data inside [0, 1]", {**ocase, "error": str(e)[:100]})
                 continue
             if not (C.close(float(cv2), float(cv), rel=1e-12, abs_=1e-15) and C.close(float(ad2), float(adstat), rel=1e-12, abs_=1e-12)
@@ -820,12 +862,15 @@ def body(ctx):
         np.random.seed(seed)
         try:
             stat, pv, sudo = metrics.alpha(obs, ens, type=typ)
-        except ValueError as e:
+        except Exception as e:  # noqa
             ctx.finding(f"alpha/{typ}/raises", "alpha raises on finite forecasts (its own PIT values are rejected by the test)",
                         {**case, "error": str(e)[:200]})
             continue
         np.random.seed(seed)
-        pits, _ = metrics.pit(obs, ens, random=True)
+        try:
+            pits, _ = real("pit", case, metrics.pit, obs, ens, random=True)
+        except Raised:
+            continue
         if not (0.0 <= pv <= 1.0):
             ctx.finding(f"alpha/{typ}/pvalue_out_of_range", "alpha p-value outside [0, 1]", {**case, "stat": float(stat), "pvalue": float(pv)})
         if typ == "CV":
@@ -950,7 +995,7 @@ def body(ctx):
                 cst, censor, random_ = rng.choice([0.0, 0.3, 0.5, 0.1]), lev(rng.randint(-1, 4)), rng.random() < 0.5
             elif act == "copy":
                 ens, obs = copy.deepcopy(ens), pickle.loads(pickle.dumps(obs))
-            elif act == "scribble_outputs" and last is not None:
+            elif act == "scribble_outputs" and last is not None and last[0] is not None:
                 try:
                     last[0][...] = -1.0
                     last[1][...] = True
